@@ -28,7 +28,8 @@ class CodeQLLocation(SarifLocation):
             zero = LineInfo(0)
             return cls(file=file, start=zero, end=zero)
 
-        start = LineInfo(line=region["startLine"], column=region.get("startColumn"))
+        # SARIF: startColumn defaults to 1 when absent
+        start = LineInfo(line=region["startLine"], column=region.get("startColumn", 1))
         end = LineInfo(
             line=region.get("endLine", start.line),
             column=region.get("endColumn", start.column),
